@@ -26,6 +26,9 @@ static const char *const PROGS[] = {
 	"1; n l | E n L | W",
 	"1; n l | E n T L",         // the re-entering thread blocks (1 ms timed wait on its own entry) before it leaves: a notify run early is seen at k<=1
 	"1; n n l | E n T L",
+	// re-entry inside the last leaver's window with the re-entering thread blocked there: a forgotten waiter of the new generation shows at k<=1
+	"1; n l | E T L | W",
+	"1; l | E T L | W",
 	0
 };
 
